@@ -449,7 +449,15 @@ inductive WOp where
   | onA (o : Op) | onB (o : Op)     -- application call or injected record on one side
   | deliverAB | deliverBA           -- the next record in flight arrives
   | parkAB | parkBA                 -- … while the receiver's connection is still `selecting`: it is parked
+  | lostA | lostB                   -- A|B loses its L2 connection (or abandons the one it was about to accept)
   deriving Repr
+
+/-- how many of the peer's records this side has processed (handed to `Manager.got_record` and not
+    dropped as old): its ack watermark + 1 -/
+def Side.processed (s : Side) : Nat :=
+  match s.highestAcked with
+  | none => 0
+  | some h => h + 1
 
 def wstep (w : World) : WOp → World × Option Err
   | .onA o => let r := step w.a o; ({ w with a := r.1 }, r.2)
@@ -471,6 +479,14 @@ def wstep (w : World) : WOp → World × Option Err
     match (wireR w.b.log)[w.dBA]? with
     | none => (w, none)
     | some r => let x := step w.a (.park r); ({ w with a := x.1, dBA := w.dBA + 1 }, x.2)
+  -- The connection goes away, as seen by the receiving side.  Records that were parked on it and not yet handed
+  -- over by `select()` go with it (`step … .lost`): they count as never delivered.  The peer has no ACK for them
+  -- (an ACK is only ever sent for a record that was processed), so its `Outbound` still holds them and
+  -- `use_connection` sends everything un-acked again on the next connection: the delivery cursor falls back to the
+  -- first record this side has not processed.  What comes again from *before* that point (processed, but the
+  -- ACK was lost) is an explicit re-sent record (`rx …` / `parkrx …`) and is dropped by the watermark.
+  | .lostA => let r := step w.a .lost; ({ w with a := r.1, dBA := min w.dBA r.1.processed }, r.2)
+  | .lostB => let r := step w.b .lost; ({ w with b := r.1, dAB := min w.dAB r.1.processed }, r.2)
 
 def wrun (w : World) : List WOp → World
   | [] => w
@@ -497,7 +513,8 @@ deliver A|B                                        (next record sent by A|B arri
 park A|B                                           (… while the receiver is still `selecting`: parked)
 A|B parkrx open|data|close <seq> <scid> [<hex>]    (an explicit record is parked: a re-sent one)
 A|B select                                         (select(): the parked records are drained, oldest first, no acks)
-A|B lost                                           (the L2 connection is gone)
+A|B lost                                           (the L2 connection is gone: its parked records are dropped and the
+                                                    peer's cursor falls back to the first record not processed here)
 ```
 Output: the effects of that operation on the side it ran on, the exception class if one was
 raised, then `| open=[scid:state …] pend=[hexname:n …]`.
@@ -586,6 +603,8 @@ def dstep (w : World) (line : String) : World × String :=
     match (wireR w.b.log)[w.dBA]? with
     | none => (w, "empty")
     | some _ => let r := wstep w .parkBA; (r.1, showStep w.a (r.1.a, r.2))
+  | ["A", "lost"] => let r := wstep w .lostA; (r.1, showStep w.a (r.1.a, r.2))
+  | ["B", "lost"] => let r := wstep w .lostB; (r.1, showStep w.b (r.1.b, r.2))
   | "A" :: rest =>
     match readOp? rest with
     | some o => let r := wstep w (.onA o); (r.1, showStep w.a (r.1.a, r.2))
